@@ -306,11 +306,11 @@ PROPS["C17"] = {
                           "Failsafe.Tie.Execution.tie_isFirstAttempt", "Failsafe.Tie.Execution.tie_isRetry", "Failsafe.Tie.Execution.tie_attempts"],
     "diff": [COMPOSE_DIFF], "rule": COMPOSE_RULE, "assumptions": COMPOSE_ASSUME, "modelled": COMPOSE_MODELLED + [
         "Executions sampled in listeners is compared only in stacks without a hedge (a cancelled hedge attempt completes asynchronously); its final value after quiescence is always compared",
-        "start times / elapsed times (monotone clock readings) are not modelled",
+        "start times / elapsed times are clock readings: not modelled in Lean; the compose harness evaluates them with an oracle of its own (StartTime constant, one AttemptStartTime per attempt number, non-decreasing across attempts) on executions without a hedge and without a retry policy inside a Timeout",
         "IsHedge is part of the function's event in model and DIFF (Run.hedgeAttempt, event name fnh); it is not the subject of a separate theorem"],
     "manifest": {
         "text": "Lean 4 theorems: Attempts = 1 + Retries + Hedges is an invariant of every policy layer over an arbitrary inner layer, hence of every execution of every policy list (induction over the list; retry and hedge by induction on their loops); an attempt rejected by an open breaker or a full bulkhead leaves invocations and Executions unchanged; the boolean flags agree with the counters (IsFirstAttempt iff Attempts = 1, IsRetry iff Attempts > 1, exactly one of them; proved about the getters regenerated from execution.go). Tie: GEN (the six statistics getters), FACTS (InitializeRetry / CopyForHedge / record bodies), DIFF sampling Attempts/Executions inside every listener and Retries/Hedges/Executions in the done event against the model's value at that point, and evaluating the flag clause on every execution object handed to the function, a fallback function or a listener.",
-        "note": "Trusted: Lean kernel; fact extractor; harness. LastResult/LastError seen by each function invocation and fallback function are part of the DIFF event log (model field Run.last); time monotonicity is not modelled.",
+        "note": "Trusted: Lean kernel; fact extractor; harness. LastResult/LastError seen by each function invocation and fallback function are part of the DIFF event log (model field Run.last); time monotonicity is a harness-side oracle, not a theorem.",
         "technique": "Lean 4 proof (inductive invariant over layers and policy lists) + structural facts + differential correspondence"},
 }
 
@@ -554,13 +554,14 @@ PROPS["C07"] = {
     "facts": ["effects/timeoutexecutor:executor.Apply", "bodies/timeoutexecutor:executor.Apply", "bodies/timeoutexecutor:executor.IsFailure",
               "bodies/execution:execution.Cancel", "bodies/execution:execution.CopyForCancellable", "bodies/timeout:config.Build"],
     "required_theorems": ["Failsafe.Props.C07.timeout_exclusive", "Failsafe.Props.C07.timeout_safe", "Failsafe.Props.C07.timeout_not_early",
-                          "Failsafe.Props.C07.blocked_fn_times_out", "Failsafe.Props.C07.reach_closed_false", "Failsafe.Props.C07.reach_closed_true"],
+                          "Failsafe.Props.C07.blocked_fn_times_out", "Failsafe.Props.C07.reach_closed_false", "Failsafe.Props.C07.reach_closed_true",
+                          "Failsafe.Props.C07.timeout_scope_local", "Failsafe.Props.C07.timeout_outcome_cases", "Failsafe.Props.C07.later_cancellation_reports_its_cause"],
     "diff": [COMPOSE_DIFF],
     "rule": COMPOSE_RULE + "; plus STRESS timeout: 2 ms limit, function durations far below / within +-200 us of the limit / far above / blocking until cancelled, alone, under a fallback, with bulkhead+limiter inside, async; listener counted again after a grace period; retry around the timeout with k blocking attempts (fresh limit per attempt)",
     "runners": [stress_runner("timeout", "an execution through a Timeout ended with the inner result AND a listener call/cancellation, or with ErrExceeded without exactly one listener call and cancellation, or ErrExceeded before the limit elapsed")],
     "assumptions": CONC_ASSUME, "modelled": ["atomic.Pointer CompareAndSwap, timer.Stop and the timer goroutine are modelled as atomic actions"],
     "manifest": {
-        "text": "Lean 4 theorems over a finite interleaving model of one Timeout application (result cell, main path, timer callback, clock), checked for every interleaving inside the kernel (breadth-first closure + decide): when the call has returned and the timer side is quiet exactly one of the two outcomes holds (inner result, no listener, not cancelled | ErrExceeded, exactly one listener call, cancelled); at every instant at most one listener call and only with the timeout result; ErrExceeded never before the limit elapsed; a function that only returns on cancellation always ends in ErrExceeded. Tie: FACTS (listener and Cancel under the callback's successful CAS; main path CAS/Stop/PostExecute(Load)), sequential DIFF of stacks with timeouts, STRESS around the racing instant.",
+        "text": "Lean 4 theorems over a finite interleaving model of one Timeout application (result cell, main path, timer callback, clock), checked for every interleaving inside the kernel (breadth-first closure + decide): when the call has returned and the timer side is quiet exactly one of the two outcomes holds (inner result, no listener, not cancelled | ErrExceeded, exactly one listener call, cancelled); at every instant at most one listener call and only with the timeout result; ErrExceeded never before the limit elapsed; a function that only returns on cancellation always ends in ErrExceeded. And over the composition model, for an arbitrary inner layer (every placement): the Timeout's cancel scope is local to one application (so the limit applies afresh to each attempt of an enclosing retry policy), the application returns the timeout result exactly when its own scope was cancelled and the inner value/error otherwise, and a cancellation from outside pending after a Timeout application is reported with its own cause, never with an earlier attempt's ErrExceeded. Tie: FACTS (listener and Cancel under the callback's successful CAS; main path CAS/Stop/PostExecute(Load)), sequential DIFF of stacks with timeouts, STRESS around the racing instant.",
         "note": "Trusted: Lean kernel; fact extractor; monitors; Go timers never early. Partial: scheduler sampled.",
         "technique": "Lean 4 proof (finite interleaving model closed and decided in the kernel) + structural facts + stress monitors"},
 }
@@ -576,7 +577,7 @@ PROPS["C08"] = {
                           "Failsafe.Props.C08.cancelRes_is_cause", "Failsafe.Props.C08.retry_stops_when_cancelled",
                           "Failsafe.Props.C08.retry_cancelled_during_delay", "Failsafe.Props.C08.trigger_ext"],
     "diff": [COMPOSE_DIFF],
-    "rule": COMPOSE_RULE + "; a quarter of the runs without blocking outcomes carry a scripted cancellation point: the harness cancels the execution (through its context, or through ExecutionResult.Cancel for async runs) from inside the k-th function invocation, from inside the k-th OnRetryScheduled listener, or before it starts, and the model predicts result, error, events, statistics and world exactly. STRESS cancel: 9 stacks (retry; fallback>retry; retry>breaker; retry>hedge; fallback>retry>hedge; retry>rate limiter waiting; retry>full bulkhead waiting; waiting rate limiter>retry; full bulkhead>retry) x 4 sources (context cancel, context deadline, async Cancel, enclosing Timeout) x cancellation instant drawn over 0-1.5 ms (before the first attempt, inside the function, between attempts, during a policy's wait); monitors: error identifies the cause, enclosed fallback never applied, completes within 400 ms (the waits it must not sit out are 1 s long), at most one attempt starts after the cancellation",
+    "rule": COMPOSE_RULE + "; a quarter of the runs without blocking outcomes carry a scripted cancellation point: the harness cancels the execution (through its context, or through ExecutionResult.Cancel for async runs) from inside the k-th function invocation, from inside the k-th OnRetryScheduled listener, or before it starts, and the model predicts result, error, events, statistics and world exactly. STRESS cancel: 13 stacks (retry; fallback>retry; retry>breaker; retry>hedge; fallback>retry>hedge; retry>rate limiter waiting; retry>full bulkhead waiting; waiting rate limiter>retry; full bulkhead>retry; hedge; hedge>retry; full bulkhead>hedge; fallback>hedge - the stacks without a retry policy with attempts that only return once cancelled) x 4 sources (context cancel, context deadline, async Cancel, enclosing Timeout) x cancellation instant drawn over 0-1.5 ms (before the first attempt, inside the function, between attempts, during a policy's wait); monitors: error identifies the cause, enclosed fallback never applied, completes within 400 ms (the waits it must not sit out are 1 s long), at most one attempt starts after the cancellation",
     "runners": [stress_runner("cancel", "a cancelled execution reported an error other than its cause, or applied a fallback enclosed by the cancellation, or kept running attempts / waiting after the cancellation")],
     "assumptions": CONC_ASSUME + COMPOSE_ASSUME + ["exactly one cancellation source is active per scenario (the property's quantifier)"],
     "modelled": ["context propagation to child contexts, the mutex and channel close are modelled", "hedge/bulkhead/limiter waits are covered by FACTS (every wait has a cancellation branch) and the stress run",
